@@ -55,12 +55,14 @@ import BpProofs.JsonText
       (`jsonText d = some d`: string keys only, no raw leaf, canonical NaN), and all four
       combinations {class form, instance form on a fresh instance} × {dict, JSON text} return the
       SAME message `m'` with `m ≈ m'` and equal bytes (BpProofs/JsonRtInst.lean, JsonText.lean);
-    * NEW excluded region, carved out by the VALUE guard `wellTyped` ("an absent plain sub-message
-      equals a fresh one"), with a `decide`d negation witness (`unmarked_submessage_witness`): a
-      plain (not optional, not oneof) sub-message that is NOT `_serialized_on_wire` but differs
-      from `Sub()` — reached by `m.a.b.x = 1` (only `b` is marked) or `m.a.items.append(1)` —
-      is encoded by `bytes(m)` (the test there is `value != default`) but left out by `to_dict`
-      (the test there is `value._serialized_on_wire`): the dict round trip loses it.
+    * a region the VALUE guard `wellTyped` ("an absent plain sub-message equals a fresh one")
+      excludes, found while proving the above: a plain (not optional, not oneof) sub-message
+      that is NOT `_serialized_on_wire` but differs from `Sub()` — reached by `m.a.b.x = 1`
+      (only `b` is marked) or `m.a.items.append(1)` — was encoded by `bytes(m)` (test
+      `value != default`) but left out by `to_dict` (test `value._serialized_on_wire`): the dict
+      round trip lost it. Replayed on the real code, a genuine defect (D46), repaired there; the
+      model follows the repaired code and `unmarked_submessage_fixed` evaluates the two witnesses.
+      (The theorems above still carry the value guard: dropping it is future work.)
   NOT PROVED: nothing of the full statement inside the guards.  Outside: the instance form on a
   NON-fresh instance (merge semantics) is not stated; `include_default_values=True` is not covered.
 -/
@@ -385,25 +387,25 @@ def mDeep : Val := .msg 0 [.msg 1 [.msg 2 [.int 1] true [] [], .ph] false [] []]
 /-- `m = Outer(); m.a.items.append(1)` -/
 def mAppend : Val := .msg 0 [.msg 1 [.ph, .list [.int 1]] false [] []] false [] []
 
-/-- outside `wellTyped` (a VALUE guard: "an absent plain sub-message equals a fresh one") the
-    statement is false of the model: `bytes(m)` encodes the sub-message (`value != default`),
-    `to_dict` leaves it out (`value._serialized_on_wire` is False), the round trip loses it.
-    All schema guards hold.  To be replayed on the real code. -/
-theorem unmarked_submessage_witness :
+/-- outside `wellTyped` (a VALUE guard: "an absent plain sub-message equals a fresh one"): before
+    the D46 repair `bytes(m)` encoded such a sub-message (`value != default`) while `to_dict` left it
+    out (`value._serialized_on_wire` is False) and the round trip lost it — found by this proof,
+    replayed on the real code, repaired there (`to_dict` now uses the test `dump` uses). The repaired
+    behaviour, evaluated on the model: the sub-message is written and the bytes survive. -/
+theorem unmarked_submessage_fixed :
     jsonOk Sdeep [] .camel = true ∧ groupsOk Sdeep = true ∧ selOk Sdeep mDeep = true ∧
     wellTyped Sdeep mDeep = false ∧ wellTyped Sdeep mAppend = false ∧
     dumpVal Sdeep mDeep = .ok [10, 4, 10, 2, 8, 1] ∧
-    toDict Sdeep [] .camel false mDeep = .obj [] [] ∧
-    (fromDictC Sdeep [] 0 (toDict Sdeep [] .camel false mDeep)).bind (dumpVal Sdeep) = .ok [] ∧
+    (fromDictC Sdeep [] 0 (toDict Sdeep [] .camel false mDeep)).bind (dumpVal Sdeep) = .ok [10, 4, 10, 2, 8, 1] ∧
     dumpVal Sdeep mAppend = .ok [10, 3, 18, 1, 1] ∧
-    (fromDictC Sdeep [] 0 (toDict Sdeep [] .camel false mAppend)).bind (dumpVal Sdeep) = .ok [] :=
-  ⟨by decide, by decide, by decide, by decide, by decide, by decide, by rfl, by decide, by decide, by decide⟩
+    (fromDictC Sdeep [] 0 (toDict Sdeep [] .camel false mAppend)).bind (dumpVal Sdeep) = .ok [10, 3, 18, 1, 1] :=
+  ⟨by decide, by decide, by decide, by decide, by decide, by decide, by decide, by decide, by decide⟩
 
 end Bp.C04
 
 #print axioms Bp.C04.roundtrip_all
 #print axioms Bp.C04.roundtrip_all_instance
-#print axioms Bp.C04.unmarked_submessage_witness
+#print axioms Bp.C04.unmarked_submessage_fixed
 #print axioms Bp.C04.roundtrip_nested
 #print axioms Bp.C04.roundtrip_flat
 #print axioms Bp.C04.roundtrip_nested_instance
